@@ -262,6 +262,11 @@ def point_off(segs):
     return None
 
 
+# the step that consumes a point-carrying message: STB 34.101.66 prescribes the membership test V in E* there
+# (bake.c marks these places "V \\in E*?"; the property's anchors name it as the mechanism)
+RECV = {"BMQV": {"M1": "A.Step3", "M2": "B.Step4"}, "BSTS": {"M1": "A.Step3", "M2": "B.Step4"},
+        "BPACE": {"M2": "B.Step4", "M3": "A.Step5"}, "BAUTH": {"M1": "A.Step3"}}
+
 # who sends what (for the pipe) : side 0 = A, 1 = B
 SENDS = {"BMQV": {1: ["M1", "M3"], 0: ["M2"]}, "BSTS": {1: ["M1", "M3"], 0: ["M2"]},
          "BPACE": {1: ["M1", "M3"], 0: ["M2", "M4"]}}
@@ -388,6 +393,7 @@ class Hist:
         self.sent, self.delivered = {}, {}
         self.key = {"A": None, "B": None}
         self.altered = False
+        self.bad_point = None       # name of a delivered message whose point encoding is not a point of the curve
         self.prev_point = None
         self.r = random.Random("c04sub/%r" % (cfg.get("tamper"),))
 
@@ -427,7 +433,13 @@ class Hist:
                 raise Harness("tamper %r left the message unchanged" % (t,))
             self.altered = True
         if po is not None:
-            self.prev_point = data[po:po + 2 * self.curve["no"]]
+            no = self.curve["no"]
+            x, y = int.from_bytes(out[po:po + no], "little"), int.from_bytes(out[po + no:po + 2 * no], "little")
+            if not Env.on_curve(self.curve, x, y):
+                if out == data:
+                    raise Harness("honest message %s carries a point that is not on the curve (per the harness)" % name)
+                self.bad_point = name
+            self.prev_point = data[po:po + 2 * no]
         self.delivered[name] = out
         return out
 
@@ -759,6 +771,14 @@ def judge(ctx, cfg, h, how="step"):
     else:
         cat, cls = "mismatch", mis.replace(":", "-")
     must_error = bool(mis) and mis.split(":")[0] in MUST_ERROR
+    if h.bad_point:
+        # an encoding that is not a point of the curve must be refused by the step that receives it
+        rs = RECV[cfg["proto"]][h.bad_point]
+        if how == "run":
+            rs = rs[0] + ".Run"
+        if any(s == rs and c == 0 for s, c in h.steps):
+            viol("%s:invalid-point-accepted-by-receiver:%s,%s,%s" % (fn, rs, cls, kc),
+                 "%s returned ERR_OK for a message %s whose point is not on the curve" % (rs, h.bad_point))
     if h.err:
         return keys
     if cfg["kca"] or cfg["kcb"] or must_error:
@@ -1196,6 +1216,8 @@ def main(run):
             "certificates are opaque name||pubkey strings checked by a caller-supplied callback, as in test/crypto/bake_test.c",
             "an altered history is accepted as detected when any step of either party returns an error; without "
             "confirmation (kca=kcb=0) differing keys are required instead",
+            "additionally, a delivered message whose point encoding is not a point of the curve (off-curve, coordinate >= p, "
+            "zero, twist) must be refused by the very step that receives it: STB 34.101.66 places the test V in E* there",
             "y-negated points (x unchanged) are outside the quantifier: STB 34.101.66 hashes and uses x-coordinates only "
             "in BPACE; they are run and tallied in info_negated_point but never judged",
             "BAUTH with kcb=0 does not authenticate the token, so a token key/certificate mismatch is only tested with kcb=1",
